@@ -394,6 +394,19 @@ func writeAmountWithSign(sb *strings.Builder, amount *ast.Amount, commodityForma
 	}
 }
 
+// keepWrittenPrecision widens a display format so that it shows every decimal
+// the amount was written with. A display format may add decimals and digit
+// groups, but formatting rewrites the journal itself: rounding the amount to the
+// display precision would change what the file says.
+func keepWrittenPrecision(format NumberFormat, amount *ast.Amount) NumberFormat {
+	written := int(-amount.Quantity.Exponent())
+	if written > 0 && (!format.HasDecimal || written > format.DecimalPlaces) {
+		format.HasDecimal = true
+		format.DecimalPlaces = written
+	}
+	return format
+}
+
 // formatAmountQuantity returns formatted quantity string.
 // Priority: commodity directive format > default format > original raw format > decimal string.
 func formatAmountQuantity(amount *ast.Amount, commodityFormats map[string]NumberFormat) string {
@@ -403,11 +416,11 @@ func formatAmountQuantity(amount *ast.Amount, commodityFormats map[string]Number
 	if commodityFormats != nil {
 		// First try specific commodity format
 		if format, ok := commodityFormats[amount.Commodity.Symbol]; ok {
-			return FormatNumber(amount.Quantity, format)
+			return FormatNumber(amount.Quantity, keepWrittenPrecision(format, amount))
 		}
 		// Then try default format (stored under empty key)
 		if format, ok := commodityFormats[""]; ok {
-			return FormatNumber(amount.Quantity, format)
+			return FormatNumber(amount.Quantity, keepWrittenPrecision(format, amount))
 		}
 	}
 	if amount.RawQuantity != "" {
